@@ -1,0 +1,21 @@
+// SPDX-FileCopyrightText: 2026 The Pion community <https://pion.ly>
+// SPDX-License-Identifier: MIT
+
+//go:build !verif
+
+package ice
+
+import (
+	"context"
+	"net"
+)
+
+// activeTCPLocalAddr picks the local address an active TCP candidate dials from.
+func activeTCPLocalAddr(address string) (*net.TCPAddr, error) {
+	return getTCPAddrOnInterface(address)
+}
+
+// activeTCPDial opens the TCP connection of an active TCP candidate.
+func activeTCPDial(ctx context.Context, dialer *net.Dialer, remote string) (net.Conn, error) {
+	return dialer.DialContext(ctx, "tcp", remote)
+}
